@@ -49,3 +49,64 @@ def run(c, replay):
     c.run_layer(b, LAYERS["wire"], "wire", deadline_s=c.pick(60, 300),
                 rule="real net.Pipe (all sequences <= 3, full close) and the real accept loop on 127.0.0.1 (one write + half-close, "
                      "abandoned connections); who may listen where; busy channel; thorough: silent client cut off by the 10 s read deadline")
+    layer_get_params(c)
+
+
+# ---------------------------------------------------------------------------------------------------------------------
+# process level: the GET side against the REAL state dump (Terminal.dumpStatus is not reachable in-package)
+def _get_job(job):
+    import ptydrive as P
+    paths = job
+    res = dict(evals=0, nt=0)
+    s = None
+    try:
+        for path in paths:
+            if s is None:
+                s = P.Session(["--multi"], ["l%d" % i for i in range(10)], rows=12, cols=40)
+                x, ok = s.wait_loaded(10)
+                if not ok:
+                    res["inconclusive"] = "not loaded"
+                    return res
+                s.post("toggle+up+toggle")
+            res["evals"] += 1
+            try:
+                st, body = s.http("GET", path=path, deadline=4.0)
+            except ConnectionError as e:
+                st, body = None, repr(e)
+            alive = s.alive()
+            if not alive or st is None:
+                code = s.wait_exit(3.0) if not alive else None
+                tail = (s.stderr + bytes(s.raw[-1500:])).decode("utf-8", "replace")[-600:]
+                res["violation"] = ("get:no-answer-or-crash", {"path": path, "alive": alive, "exit": code, "answer": str(body)[:200], "tail": tail})
+                return res
+            if st == 200:
+                import json as _j
+                try:
+                    _j.loads(body)
+                    res["nt"] += 1
+                except ValueError:
+                    res["violation"] = ("get:state-is-not-json", {"path": path, "body": body[:200].decode("utf-8", "replace")})
+                    return res
+            elif st not in (400, 503):
+                res["violation"] = ("get:unexpected-status", {"path": path, "status": st})
+                return res
+        return res
+    finally:
+        if s is not None:
+            s.close()
+
+
+def layer_get_params(c):
+    import ptydrive as P
+    import sweep
+    fzf = c.build_fzf()
+    P.set_fzf(fzf, c.work + "/pty")
+    vals = ["0", "1", "2", "10", "11", "100", "2147483647", "2147483648", "4294967295", "4294967296", "9223372036854775807", "9223372036854775808",
+            "9223372036854775809", "18446744073709551615", "18446744073709551616", "99999999999999999999", "-1", "x", "", "1e3", "0x10", "%31"]
+    paths = ["/?limit=%s&offset=%s" % (l, o) for l in vals for o in vals] + ["/?offset=%s" % o for o in vals] + ["/?limit=%s" % l for l in vals] + \
+            ["/?", "/?&", "/?limit", "/?limit=1&limit=2&offset=3&offset=4", "/?x=1", "/?offset=1&limit=", "/?limit=1;offset=1"]
+    batch = 40
+    jobs = [paths[i:i + batch] for i in range(0, len(paths), batch)]
+    sweep.run_jobs(c, "get-parameters", _get_job, jobs, deadline_s=120,
+                   rule="GET /?limit=L&offset=O on the real binary for 22 x 22 boundary values (0, 2^31, 2^63 +-1, 2^64 +-1, negative, non-numeric, empty): a well-formed answer "
+                        "(200 with JSON or 400), fzf alive afterwards; evaluations = requests")
